@@ -32,12 +32,12 @@ REACTIONS = ("reply", "reply_fast", "reply_slow", "never", "eof", "chatty", "cha
 
 def plan(tier, seed):
     items = [{"kind": "grid", "exhaustive": "close(status, timeout) x every peer reaction x every status"}]
-    n = 20000 if tier == "quick" else 400000
+    n = 20000 if tier == "quick" else 1600000
     per = 500 if tier == "quick" else 4000
     for s in range(0, n, per):
         items.append({"kind": "rand", "start": s, "count": per})
     items.append({"kind": "tgrid", "exhaustive": "reader thread {recv, recv_data, recv_data_frame} x socket timeout {none, 2 s} x every peer reaction x close timeout x 2 policies"})
-    nt = 3000 if tier == "quick" else 60000
+    nt = 3000 if tier == "quick" else 240000
     for s in range(0, nt, per // 2):
         items.append({"kind": "trand", "start": s, "count": per // 2})
     return items
